@@ -9,7 +9,7 @@ Local Open Scope N_scope.
 Lemma lf_upd_nat_length {A} (g : A -> A) : forall (l : list A) i, length (upd_nat l i g) = length l.
 Proof. induction l as [|x l IH]; intros [|i]; simpl; try reflexivity. now rewrite IH. Qed.
 Lemma lf_updN_length {A} (l : list A) i (g : A -> A) : length (updN l i g) = length l.
-Proof. apply lf_upd_nat_length. Qed.
+Proof. unfold updN. destruct (i <? N.of_nat (length l)); [apply lf_upd_nat_length|reflexivity]. Qed.
 Lemma lf_setN_length {A} (l : list A) i (x : A) : length (setN l i x) = length l.
 Proof. apply lf_updN_length. Qed.
 
@@ -21,20 +21,46 @@ Proof.
   apply IH. congruence.
 Qed.
 Lemma lf_nthN_updN_same {A} (l : list A) i g : nthN (updN l i g) i = option_map g (nthN l i).
-Proof. apply lf_upd_nat_nth_same. Qed.
+Proof.
+  unfold nthN. rewrite lf_updN_length. unfold updN.
+  destruct (i <? N.of_nat (length l)); [apply lf_upd_nat_nth_same|reflexivity].
+Qed.
 Lemma lf_nthN_updN_other {A} (l : list A) i j g : i <> j -> nthN (updN l i g) j = nthN l j.
-Proof. intros H. apply lf_upd_nat_nth_other. lia. Qed.
+Proof.
+  intros H. unfold nthN. rewrite lf_updN_length. unfold updN.
+  destruct (i <? N.of_nat (length l)); [|reflexivity].
+  destruct (j <? N.of_nat (length l)); [|reflexivity]. apply lf_upd_nat_nth_other. lia.
+Qed.
 Lemma lf_nthN_setN_other {A} (l : list A) i j x : i <> j -> nthN (setN l i x) j = nthN l j.
 Proof. apply lf_nthN_updN_other. Qed.
 
 Lemma lf_nthN_Some_lt {A} (l : list A) i x : nthN l i = Some x -> i < N.of_nat (length l).
-Proof. unfold nthN. intros H. assert (nth_error l (N.to_nat i) <> None) by congruence. apply nth_error_Some in H0. lia. Qed.
+Proof. unfold nthN. destruct (N.ltb_spec i (N.of_nat (length l))); [auto|discriminate]. Qed.
+Lemma lf_nthN_nth_error {A} (l : list A) i x : nthN l i = Some x -> nth_error l (N.to_nat i) = Some x.
+Proof. unfold nthN. destruct (i <? N.of_nat (length l)); [auto|discriminate]. Qed.
+Lemma lf_nth_error_nthN {A} (l : list A) i x : nth_error l (N.to_nat i) = Some x -> nthN l i = Some x.
+Proof.
+  intros H. unfold nthN. destruct (N.ltb_spec i (N.of_nat (length l))); [exact H|].
+  assert (nth_error l (N.to_nat i) <> None) by congruence. apply nth_error_Some in H1. lia.
+Qed.
+Lemma lf_nthN_lt_Some {A} (l : list A) i : i < N.of_nat (length l) -> exists x, nthN l i = Some x.
+Proof.
+  intros H. destruct (nth_error l (N.to_nat i)) as [x|] eqn:Hx.
+  - exists x. now apply lf_nth_error_nthN.
+  - apply nth_error_None in Hx. lia.
+Qed.
 Lemma lf_nthN_In {A} (l : list A) i x : nthN l i = Some x -> In x l.
-Proof. unfold nthN. apply nth_error_In. Qed.
+Proof. intros H. apply lf_nthN_nth_error in H. eapply nth_error_In; eassumption. Qed.
 Lemma lf_nthN_app_l {A} (l l' : list A) i : i < N.of_nat (length l) -> nthN (l ++ l') i = nthN l i.
-Proof. intros H. unfold nthN. apply nth_error_app1. lia. Qed.
+Proof.
+  intros H. unfold nthN. rewrite app_length.
+  destruct (N.ltb_spec i (N.of_nat (length l))); [|lia].
+  destruct (N.ltb_spec i (N.of_nat (length l + length l'))); [|lia]. apply nth_error_app1. lia.
+Qed.
 
 (* pointwise relation between a list and its single-position update *)
+Lemma lf_Forall2_refl {A} (R : A -> A -> Prop) : (forall x, R x x) -> forall l, Forall2 R l l.
+Proof. intros Hr. induction l; constructor; auto. Qed.
 Lemma lf_Forall2_upd_nat {A} (R : A -> A -> Prop) (g : A -> A) :
   (forall x, R x x) -> forall (l : list A) i, (forall x, nth_error l i = Some x -> R x (g x)) -> Forall2 R l (upd_nat l i g).
 Proof.
@@ -46,9 +72,10 @@ Proof.
 Qed.
 Lemma lf_Forall2_updN {A} (R : A -> A -> Prop) (g : A -> A) (l : list A) i :
   (forall x, R x x) -> (forall x, nthN l i = Some x -> R x (g x)) -> Forall2 R l (updN l i g).
-Proof. intros Hr H. apply lf_Forall2_upd_nat; assumption. Qed.
-Lemma lf_Forall2_refl {A} (R : A -> A -> Prop) : (forall x, R x x) -> forall l, Forall2 R l l.
-Proof. intros Hr. induction l; constructor; auto. Qed.
+Proof.
+  intros Hr H. unfold updN. destruct (N.ltb_spec i (N.of_nat (length l))); [|apply lf_Forall2_refl; exact Hr].
+  apply lf_Forall2_upd_nat; [assumption|]. intros x Hx. apply H. now apply lf_nth_error_nthN.
+Qed.
 Lemma lf_Forall2_trans {A} (R : A -> A -> Prop) : (forall x y z, R x y -> R y z -> R x z) ->
   forall a b c, Forall2 R a b -> Forall2 R b c -> Forall2 R a c.
 Proof.
